@@ -161,6 +161,13 @@ def C09_cycle_diagnosed_full : Prop :=
     (s.rpc = .halted → s.halt = .none → s.stop = false → cycleTasks inp nTasks (trace inp s) = []) ∧
     (∀ t ∈ cycleTasks inp nTasks (trace inp s), s.events.countP (Ev.isStartOf t) = 0)
 
+/-- what IS proved of termination (`C09_terminates_full` is not): `halted` is final for the main thread of both
+    systems, and a raised cyclic error reaches it in two steps (`C09_cyclic_ends_run_*`).  Missing: the potential
+    function showing that every run reaches `halted` (DESIGN §5 C09); the harness runs every case under a watchdog. -/
+theorem C09_terminates_partial (inp : RunInput) (s : Sys) (perm : List Name) (h : s.rpc = .halted) :
+    serialStep inp s perm = none ∧ mainStep inp s perm = none := by
+  simp [serialStep, mainStep, h]
+
 /-! ### instances, counterexamples for the dispatcher before the repair, non-vacuity -/
 
 /-- `a -> {b, c}`, `b -> c`, `c -> b` (tasks 0, 1, 2): the cycle is first reached from the common parent `a`, so
@@ -184,6 +191,17 @@ theorem C09_common_parent_diagnosed_parallel :
       exitCode s = 3 :=
   ⟨_, autoRun_preach (by decide) false false 200 _ PReach.init, by decide +kernel, by decide +kernel,
     by decide +kernel⟩
+
+/-- what IS proved of `C09_cycle_diagnosed_full`: the instances above (a cycle the ancestors test cannot see is
+    diagnosed with exit code 3 and nothing executed, serial and two workers) and, in general, that a raised cyclic
+    error ends the run with exit code 3 (`C09_cyclic_ends_run_*`).  Missing: that EVERY cyclic closure leads to the
+    error (needs the order invariant "a task is reported only after its dependencies" for all terminal reports). -/
+theorem C09_cycle_diagnosed_partial :
+    (∃ s, Reach exCommonParent s ∧ s.rpc = .halted ∧ s.halt = .cyclic ∧ exitCode s = 3) ∧
+    (∃ s, PReach { exCommonParent with runner := .thread, numProc := 2 } s ∧ s.rpc = .halted ∧ s.halt = .cyclic ∧
+      exitCode s = 3) := by
+  obtain ⟨s, a, b, c, d, _⟩ := C09_common_parent_diagnosed
+  exact ⟨⟨s, a, b, c, d⟩, C09_common_parent_diagnosed_parallel⟩
 
 /-- the pinned dispatcher (no `_check_deadlock`), serial runner: the same input ends in an internal error
     (`select_task("hold on")`: AttributeError) instead of the diagnosis, and the monitor rejects that run -/
